@@ -246,6 +246,91 @@ theorem sleepOK_step (st : Static) (c : Cfg) (t : Nat) (c' : Cfg) (inv : SleepOK
       · cases h'
   | _ + 3, h => simp [machine] at h
 
+/-! ### end to end: what happens while the commanding thread sleeps inside a blocking primitive -/
+
+theorem stepThr_frame (st : Static) (c c' : Cfg) (h : stepThr st c = some c') (hq : Ev.term ∉ c.thr.queue) :
+    c'.code = c.code ∧ c'.tMain = c.tMain ∧ c'.flying = c.flying ∧ c'.thr.alive = true ∧ Ev.term ∉ c'.thr.queue := by
+  unfold stepThr at h
+  split at h
+  · rename_i ha
+    split at h
+    · rename_i q hq'; rw [hq'] at hq; simp at hq
+    · rename_i s q hq'
+      cases h
+      rw [hq'] at hq
+      exact ⟨rfl, rfl, rfl, ha, fun hm => hq (by simp [hm])⟩
+    · rename_i hq'
+      split at h
+      · cases h; exact ⟨rfl, rfl, rfl, ha, by rw [hq']; simp⟩
+      · cases h
+  · cases h
+
+theorem stepClock_frame (c c' : Cfg) (h : stepClock c = some c') :
+    c'.code = c.code ∧ c'.tMain = c.tMain ∧ c'.flying = c.flying ∧ c'.thr = c.thr ∧ c'.trace = c.trace := by
+  unfold stepClock at h
+  split at h
+  · cases h
+  · split at h <;> first | (cases h; exact ⟨rfl, rfl, rfl, rfl, rfl⟩) | cases h
+
+/-- what is preserved while only the set-point thread and the clock run (the commanding thread sleeps) -/
+structure Seg (c0 c : Cfg) : Prop where
+  code : c.code = c0.code
+  tMain : c.tMain = c0.tMain
+  alive : c.thr.alive = true
+  noterm : Ev.term ∉ c.thr.queue
+  vz : cmdVz c.thr.queue c.thr.zVel = cmdVz c0.thr.queue c0.thr.zVel
+  height : curZ c.thr c.now = curZ c0.thr c0.now + cmdVz c0.thr.queue c0.thr.zVel * (c.now - c0.now)
+  sleep : SleepOK c
+
+theorem seg_run (st : Static) (c0 : Cfg) : ∀ (sch : List Nat) (c c' : Cfg), (∀ t ∈ sch, t = 1 ∨ t = 2) → Seg c0 c →
+    run (machine st) c sch = some c' → Seg c0 c'
+  | [], c, c', _, hs, hr => by simp only [run, Option.some.injEq] at hr; exact hr ▸ hs
+  | t :: ts, c, c', ht, hs, hr => by
+    simp only [run] at hr
+    cases hstep : (machine st).step c t with
+    | none => rw [hstep] at hr; cases hr
+    | some c1 =>
+      rw [hstep] at hr
+      refine seg_run st c0 ts c1 c' (fun t' ht' => ht t' (by simp [ht'])) ?_ hr
+      have hsl := sleepOK_step st c t c1 hs.sleep hstep
+      cases ht t (by simp) with
+      | inl h1 =>
+        subst h1
+        have hstep' : stepThr st c = some c1 := hstep
+        obtain ⟨f1, f2, _, f4, f5⟩ := stepThr_frame st c c1 hstep' hs.noterm
+        obtain ⟨g1, g2, g3, _⟩ := height_thr st c c1 hstep'
+        exact ⟨f1.trans hs.code, f2.trans hs.tMain, f4, f5, g3.trans hs.vz, by rw [g2, g1]; exact hs.height, hsl⟩
+      | inr h2 =>
+        subst h2
+        have hstep' : stepClock c = some c1 := hstep
+        obtain ⟨f1, f2, _, f4, _⟩ := stepClock_frame c c1 hstep'
+        obtain ⟨g1, _, g3⟩ := height_clock c c1 hstep' hs.alive
+        refine ⟨f1.trans hs.code, f2.trans hs.tMain, by rw [f4]; exact hs.alive, by rw [f4]; exact hs.noterm,
+          by rw [f4]; exact hs.vz, ?_, hsl⟩
+        rw [g3, hs.height, hs.vz]; ring
+
+theorem sleep_segment (st : Static) (c : Cfg) (T : Q) (rest : List Instr) (hc : c.code = .sleep T :: rest) (hT : 0 ≤ T)
+    (htm : c.tMain = c.now) (ha : c.thr.alive = true) (hq : Ev.term ∉ c.thr.queue)
+    (sch : List Nat) (hsch : ∀ t ∈ sch, t = 1 ∨ t = 2) (c' c'' : Cfg)
+    (hrun : run (machine st) c sch = some c') (hwake : stepMain st c' = some c'') :
+    c''.code = rest ∧ c''.now = c.now + T ∧
+    curZ c''.thr c''.now = curZ c.thr c.now + cmdVz c.thr.queue c.thr.zVel * T := by
+  have h0 : Seg c c := ⟨rfl, rfl, ha, hq, rfl, by ring, fun d r _ hd => by rw [htm]; linarith⟩
+  have hs := seg_run st c sch c c' hsch h0 hrun
+  have hc' : c'.code = .sleep T :: rest := hs.code.trans hc
+  have hle := hs.sleep T rest hc' hT
+  simp only [stepMain, hc'] at hwake
+  split at hwake
+  · rename_i hneg; exact absurd hT (not_le.mpr hneg)
+  · split at hwake
+    · rename_i hge
+      cases hwake
+      have hnow : c'.now = c.now + T := by rw [← htm, ← hs.tMain]; exact le_antisymm hle hge
+      refine ⟨rfl, hnow, ?_⟩
+      show curZ c'.thr c'.now = _
+      rw [hs.height, hnow]; ring
+    · cases hwake
+
 theorem sleepOK_run (st : Static) (code : List Instr) (sch : List Nat) (c : Cfg)
     (h : run (machine st) (Cfg.start code) sch = some c) : SleepOK c := by
   refine run_invariant (machine st) SleepOK (fun c t c' i hs => sleepOK_step st c t c' i hs) sch _ c ?_ h
